@@ -86,8 +86,127 @@ def nontrivial(b):
                for s in b["hist"])
 
 
+HOOK_CFG = """SPECIFICATION TSpec
+CONSTANTS
+  Rcpts = {"r1", "r2", "r3", "r4", "r5"}
+  MaxTriesSet = {1, 2, 3, 4, 5, 6, 7, 8, 9, 10}
+  MaxList = 5
+  Devs = {}
+  RwSets = {{}}
+  Utf8Set = {FALSE}
+  BounceStages = {"ok", "start", "rcpt", "body", "commit"}
+  Gen = FALSE
+CHECK_DEADLOCK FALSE
+POSTCONDITION Post
+"""
+
+
+def repo_test_traces(ctx, pid, mine):
+    """The other direction of the binding: run the REPOSITORY'S OWN tests of internal/target/queue, unchanged,
+    with the trace hooks compiled in (build tag verif; verif_trace.go / verif_trace_test.go) and validate every
+    message's recorded life against Queue.tla (QueueHookTrace.tla): the tests' own assertions are whatever they
+    are, the specification's predicates are evaluated at every step of what the tests made the queue do."""
+    import subprocess
+    d = ctx.sub("repotests")
+    raw = os.path.join(d, "raw.ndjson")
+    tmp = os.path.join(d, "tmp")
+    os.makedirs(tmp, exist_ok=True)
+    env = vlib.goenv()
+    env.update(VERIF_TRACE_OUT=raw, TMPDIR=tmp)
+    p = subprocess.run(["timeout", "600", "go", "test", "-tags", "verif", "-count=1", "./internal/target/queue/"],
+                       cwd=ctx.repo, env=env, stdout=subprocess.PIPE, stderr=subprocess.STDOUT, text=True)
+    if not os.path.exists(raw) or os.path.getsize(raw) == 0:
+        raise vlib.Infra("the repository's queue tests recorded nothing with the hooks on (rc=%d): %s" % (
+            p.returncode, p.stdout[-1500:]))
+    ctx.cov["repo_tests_rc"] = p.returncode     # a failing test is not our verdict; its traces still count
+    by_key = {}
+    for line in open(raw):
+        e = json.loads(line)
+        by_key.setdefault(e["key"], []).append(e)
+    events, info, skipped = [], {}, 0
+    for k, key in enumerate(sorted(by_key)):
+        evs = sorted(by_key[key], key=lambda e: e["seq"])
+        acc = [e for e in evs if e["e"] == "QAccept"]
+        if len(acc) != 1 or evs[0]["e"] != "QAccept":
+            skipped += 1          # spool entries the test wrote by hand / re-used IDs: no defined start
+            continue
+        names = {}
+        def rid(a):
+            if a not in names:
+                names[a] = "r%d" % (len(names) + 1)
+            return names[a]
+        t = 2000000 + k
+        a0 = acc[0]
+        out = [{"t": t, "seq": 0, "e": "Cfg", "partial": any(e["e"] == "TBodyNA" for e in evs),
+                "bounce": a0["bounce"], "nullSender": a0["nullSender"], "mt": a0["mt"],
+                "list": [rid(r) for r in a0["rcpts"]], "test": key.split("/")[-3] if key.count("/") >= 3 else key}]
+        for e in evs:
+            n = {"t": t, "seq": e["seq"], "e": e["e"]}
+            if e["e"] == "QAccept":
+                n["rcpts"] = [rid(r) for r in e["rcpts"]]
+            elif e["e"] == "TAddRcpt":
+                n["r"], n["res"] = rid(e["r"]), e["res"]
+            elif e["e"] == "TBodyNA":
+                st = {rid(r): v for r, v in e["st"].items()}
+                st.update({rid(r): v for r, v in (e.get("extra") or {}).items()})
+                n["st"] = st
+            elif e["e"] == "Dsn":
+                n["stage"], n["rcpts"] = e["stage"] or "abort", [rid(r) for r in e["rcpts"]]
+            elif e["e"] == "Quiesced":
+                n["spoolEmpty"] = e["spoolEmpty"]
+            elif "res" in e:
+                n["res"] = e["res"]
+            out.append(n)
+        if len(names) > 5:
+            skipped += 1
+            continue
+        if out[-1]["e"] != "Quiesced":
+            out.append({"t": t, "seq": out[-1]["seq"] + 1, "e": "End"})
+        events += out
+        info[t] = {"spool_entry": key, "events": out}
+    if not events:
+        raise vlib.Infra("no usable trace from the repository's queue tests")
+    # binding self-test: a trace with one corrupted field must not be accepted
+    st_t = None
+    for t, i in info.items():
+        if any(e["e"] == "TCommit" and e["res"] == "ok" for e in i["events"]) and i["events"][-1]["e"] == "Quiesced":
+            bad = [dict(e, t=2900001) for e in i["events"]]
+            next(e for e in bad if e["e"] == "TCommit" and e["res"] == "ok")["res"] = "temp"
+            events += bad
+            st_t = 2900001
+            break
+    verdicts, by_t = ctx.validate("QueueHookTrace", None, events, name="repotests-trace", cfg_text=HOOK_CFG)
+    ok = drift = 0
+    for t, recs in sorted(verdicts.items()):
+        if t == st_t:
+            if any(not r["drift"] for r in recs) and not recs[0]["viol"]:
+                raise vlib.Infra("binding self-test failed: a corrupted repo-test trace was accepted")
+            continue
+        viol = sorted(set(v for r in recs for v in r["viol"] if mine(v)))
+        if viol:
+            ctx.violation("the repository's own queue test %s makes the queue violate %s" % (
+                info[t]["events"][0]["test"], ",".join(viol)),
+                {"property": pid, "repotest": info[t], "violated": viol,
+                 "how": "bin/check %s --replay <this file> (re-runs the package's tests with the hooks on)" % pid})
+        elif any(not r["drift"] for r in recs):
+            ok += 1
+        else:
+            drift += 1
+            print("DRIFT property=%s repo-test trace %s (%s) first-unexplained-seq=%s" % (
+                pid, t, info[t]["events"][0]["test"], recs[0]["driftAt"]))
+    ctx.cov["repo_test_traces"] = {"messages": len(by_key), "validated": ok, "drift": drift, "skipped_no_start": skipped,
+                                   "events": sum(len(v) for v in by_key.values())}
+    return ok
+
+
 def run(ctx, replay):
+    if replay and "repotest" in json.load(open(replay)):
+        repo_test_traces(ctx, "C01", lambda v: v not in REPORT_PREDS)
+        return
     run_queue(ctx, replay, "C01", lambda v: v not in REPORT_PREDS, DIMS_C01, {"real": True})
+    if not replay:
+        n = repo_test_traces(ctx, "C01", lambda v: v not in REPORT_PREDS)
+        ctx.cov["traces_validated_against_impl"] += n
     if ctx.tier == "thorough" and not replay:
         # the end-to-end composition (endpoint -> pipeline -> queue -> forwarder -> next hop), MsgPath.tla
         import subprocess
